@@ -23,7 +23,7 @@ func convertTWCC(feedback *rtcp.TransportLayerCC) []acknowledgement {
 	for _, pc := range feedback.PacketChunks {
 		switch chunk := pc.(type) {
 		case *rtcp.RunLengthChunk:
-			for i := uint16(0); i < chunk.RunLength; i++ {
+			for i := uint16(0); i < chunk.RunLength && offset < int(feedback.PacketStatusCount); i++ {
 				seqNr := feedback.BaseSequenceNumber + uint16(offset) // nolint:gosec
 				offset++
 				switch chunk.PacketStatusSymbol {
@@ -35,6 +35,10 @@ func convertTWCC(feedback *rtcp.TransportLayerCC) []acknowledgement {
 						ecn:            0,
 					})
 				case rtcp.TypeTCCPacketReceivedSmallDelta, rtcp.TypeTCCPacketReceivedLargeDelta:
+					if recvDeltaIndex >= len(feedback.RecvDeltas) {
+						// inconsistent feedback: fewer deltas than received symbols
+						return acks
+					}
 					delta := feedback.RecvDeltas[recvDeltaIndex]
 					nextTimestamp = nextTimestamp.Add(time.Duration(delta.Delta) * time.Microsecond)
 					recvDeltaIndex++
@@ -55,6 +59,9 @@ func convertTWCC(feedback *rtcp.TransportLayerCC) []acknowledgement {
 			}
 		case *rtcp.StatusVectorChunk:
 			for _, s := range chunk.SymbolList {
+				if offset >= int(feedback.PacketStatusCount) {
+					break
+				}
 				seqNr := feedback.BaseSequenceNumber + uint16(offset) // nolint:gosec
 				offset++
 				switch s {
@@ -66,6 +73,10 @@ func convertTWCC(feedback *rtcp.TransportLayerCC) []acknowledgement {
 						ecn:            0,
 					})
 				case rtcp.TypeTCCPacketReceivedSmallDelta, rtcp.TypeTCCPacketReceivedLargeDelta:
+					if recvDeltaIndex >= len(feedback.RecvDeltas) {
+						// inconsistent feedback: fewer deltas than received symbols
+						return acks
+					}
 					delta := feedback.RecvDeltas[recvDeltaIndex]
 					nextTimestamp = nextTimestamp.Add(time.Duration(delta.Delta) * time.Microsecond)
 					recvDeltaIndex++
